@@ -337,6 +337,13 @@ func termKey(v ssa.Value) any {
 		}
 	case *ssa.Call:
 		return callRes{x, 0}
+	case *ssa.Field:
+		// a field of a by-value struct parameter: the same quantity at every mention
+		if prm, ok := x.X.(*ssa.Parameter); ok {
+			if st, ok := prm.Type().Underlying().(*types.Struct); ok && x.Field < st.NumFields() {
+				return fieldKey{Base: prm, Path: "." + st.Field(x.Field).Name()}
+			}
+		}
 	}
 	return v
 }
@@ -3005,6 +3012,27 @@ func (b *Bounds) ResultFeasible(fn *ssa.Function, want bool, extra []Fact) bool 
 		all := append(append([]Fact{}, facts...), extra...)
 		if !b.inconsistent(all) {
 			return true
+		}
+	}
+	return false
+}
+
+// OkFeasible reports whether fn can reach a return that may succeed (error not definitely non-nil)
+// under the extra facts over its parameters: some acyclic path to such a return has a consistent
+// set of facts. As with ResultFeasible, "false" is a refutation and "true" only means that no path
+// was refuted.
+func (b *Bounds) OkFeasible(fn *ssa.Function, extra []Fact) bool {
+	memo := map[*ssa.BasicBlock][]way{}
+	for _, r := range b.Flow.OkReturns(fn) {
+		for _, w := range b.pathWays(r.Block(), 0, memo) {
+			cx := pathCtx{subst: w.subst}
+			var facts []Fact
+			for _, f := range w.facts {
+				facts = append(facts, Fact{L: cx.apply(f.L), Why: f.Why, Neq: f.Neq})
+			}
+			if !b.inconsistent(append(facts, extra...)) {
+				return true
+			}
 		}
 	}
 	return false
